@@ -520,6 +520,80 @@ theorem C16_ddy_days_accepted {α : Type} (isDay : α → Bool) (old : List α) 
   rw [C16_ddy_days_shape_independent]
   simp [h]
 
+/-! ### round 6: comparison strictness of the location update (both setters) -/
+
+/-- The regenerated tests of the two update loops: both compare the WHOLE Location objects. -/
+theorem C16_ddy_location_guards :
+    daysSetterGuard = .wholeLocation ∧ locationSetterGuard = .wholeLocation := by decide
+
+/-- `Location.__key` (what `==` compares) reads every slot of a Location and nothing else: no attribute is
+    left out of the comparison the guards rely on (the order of the entries does not matter). -/
+theorem C16_location_key_complete :
+    (locationSlots.all fun s => (locationKey.map slotOf).contains s) = true ∧
+    ((locationKey.map slotOf).all fun s => locationSlots.contains s) = true := by
+  decide
+
+/-- **Every design day of a DDY is at the DDY's location** after the `design_days` setter (hence after
+    `__init__`) and after the `location` setter, whatever locations the days came with. -/
+theorem C16_ddy_days_carry_ddy_location {ℓ δ : Type} [DecidableEq ℓ] (L : ℓ) (days : List (ℓ × δ)) :
+    (∀ d ∈ updateLocations L days, d.1 = L) ∧ (∀ d ∈ updateLocationsOnLocationSet L days, d.1 = L) := by
+  have key : ∀ d ∈ updateLocationsWith (fun a b => decide (a ≠ b)) L days, d.1 = L := by
+    intro d hd
+    simp only [updateLocationsWith, List.mem_map] at hd
+    obtain ⟨e, _, rfl⟩ := hd
+    by_cases h : e.1 = L <;> simp [h]
+  constructor
+  · simpa [updateLocations, guardTest, C16_ddy_location_guards.1] using key
+  · simpa [updateLocationsOnLocationSet, guardTest, C16_ddy_location_guards.2] using key
+
+/-- The update keeps everything else of every day, in order. -/
+theorem C16_ddy_update_keeps_days {ℓ δ : Type} (differs : ℓ → ℓ → Bool) (L : ℓ) (days : List (ℓ × δ)) :
+    (updateLocationsWith differs L days).map (·.2) = days.map (·.2) := by
+  induction days with
+  | nil => rfl
+  | cons d ds ih =>
+    simp only [updateLocationsWith, List.map_cons] at ih ⊢
+    rw [ih]
+    by_cases h : differs d.1 L = true <;> simp [h]
+
+/-- **The written DDY reads back equal** as far as locations go: the file has one `Site:Location`, every day read
+    back gets it, and that is the DDY the setters have established - for days that came from ANY location. -/
+theorem C16_ddy_update_roundtrip {ℓ δ : Type} [DecidableEq ℓ] (L : ℓ) (days : List (ℓ × δ)) :
+    readBack L (updateLocations L days) = (L, updateLocations L days) := by
+  have h := (C16_ddy_days_carry_ddy_location L days).1
+  simp only [readBack, Prod.mk.injEq, true_and]
+  conv => rhs; rw [← List.map_id (updateLocations L days)]
+  apply List.map_congr_left
+  intro d hd
+  have := h d hd
+  cases d with | mk a r => simp_all
+
+/-- The class of change this excludes: a test that is relaxed to "the attributes that matter" - any test that
+    answers "same" for two DIFFERENT locations `a`, `L` - leaves a day at `a` inside the DDY at `L`, and the
+    written file does not read back equal. -/
+theorem C16_ddy_relaxed_guard_breaks_roundtrip {ℓ δ : Type} (differs : ℓ → ℓ → Bool) (a L : ℓ) (r : δ)
+    (hne : a ≠ L) (hrelaxed : differs a L = false) :
+    readBack L (updateLocationsWith differs L [(a, r)]) ≠ (L, updateLocationsWith differs L [(a, r)]) := by
+  simp [readBack, updateLocationsWith, hrelaxed]
+  exact fun h => hne h.symm
+
+/-- Recorded finding C16-ddy-setitem-foreign-location: item assignment stores the day with the location it came
+    with, so a DDY at `"ddy"` can hold a day at `"epw"`, and the written file does not read back equal. -/
+theorem C16_ddy_setitem_counterexample :
+    let days := setItem (updateLocations "ddy" [("ddy", 0)]) 0 ("epw", 1)
+    (¬ ∀ d ∈ days, d.1 = "ddy") ∧ readBack "ddy" days ≠ ("ddy", days) := by
+  decide
+
+/-- Non-vacuity: two descriptions of one station (the EPW names state, country, station id and source; the
+    .ddy file does not) are different locations, and a position-only test calls them the same. -/
+example :
+    let ddy : Loc9 := ⟨"Chicago", "-", "-", "41.98", "-87.92", "-6.0", "201.0", "", ""⟩
+    let epw : Loc9 := ⟨"Chicago", "IL", "USA", "41.98", "-87.92", "-6.0", "201.0", "725300", "TMY3"⟩
+    let position (a b : Loc9) : Bool := decide ((a.latitude, a.longitude, a.timeZone) ≠ (b.latitude, b.longitude, b.timeZone))
+    epw ≠ ddy ∧ position epw ddy = false ∧
+      updateLocations ddy [(epw, 7)] = [(ddy, 7)] ∧ updateLocationsWith position ddy [(epw, 7)] = [(epw, 7)] := by
+  decide
+
 /-- Why the order matters: a setter that type-checks the items of its argument first and only then stores
     `list(argument)` keeps every day of a re-iterable container but NONE of a one-shot iterator (the check has
     used it up).  This is not the code; it is the neighbouring program the plan theorem excludes. -/
